@@ -235,6 +235,12 @@ def check_params(ctx, vals, model=None):
             ctx.violation("refused-with-ValueError", inp, {"main_outcome": r["outcome"], "check_input": ci})
         if wrote:
             ctx.violation("nothing-written-when-refused", inp, {"written": wrote})
+        # "before anything is written" includes directories: the same refused set started in a working directory
+        # WITHOUT inputs/ must leave that directory empty
+        r0 = boards.run_generator(argv, inputs_dir=False)
+        if r0["files"] or r0.get("dirs"):
+            ctx.violation("nothing-written-when-refused", dict(inp, cwd="no inputs/ directory"),
+                          {"files": sorted(r0["files"]), "directories_created": r0.get("dirs"), "main_outcome": r0["outcome"]})
         nan_case = any(isinstance(x, float) and x != x for x in vals)
         if ci != "ValueError" and not nan_case:
             ctx.violation("check_input-refuses", inp, {"check_input": ci})
